@@ -57,7 +57,7 @@ class Collection(NadaType):
     def to_mir(self):
         """Convert operation wrapper to a dictionary representing its type."""
         if isinstance(self, (Array, ArrayType)):
-            size = {"size": self.size} if self.size else {}
+            size = {"size": self.size} if self.size is not None else {}
             contained_type = self.retrieve_inner_type()
             return {"Array": {"inner_type": contained_type, **size}}
         if isinstance(self, (Tuple, TupleType)):
